@@ -47,7 +47,7 @@ sum_of_sqrtm_factors = Contract(
 # ---- revert_conditional ---------------------------------------------------------------------
 
 
-def _revert_ensures(result, *, R_X_F, R_X, R_YX, solve_triu):
+def _revert_ensures(result, R_X_F=None, R_X=None, R_YX=None, *, solve_triu=None):
     R_Y, (R_XY, G) = result
     S = R_YX.T @ R_YX + R_X_F.T @ R_X_F  # marginal covariance of Y
     P = R_X.T @ R_X  # covariance of X
